@@ -204,6 +204,7 @@ theorem succ_nextElem : ∀ src, PresM none (nextElem (fuel + 1) src) := by
   intro src
   cases src with
   | elems xs => cases xs <;> (rw [nextElem]; exact PresM.pure _ _)
+  | stdin => rw [nextElem]; pres_tac ih
   | iter id =>
     intro s
     rw [nextElem]
